@@ -165,8 +165,8 @@ claim("C01",
       trusted_base=[TB_KANI, TB_SHIM, TB_HOOK, TB_X86])
 claim("C02",
       "Proof of the per-guard contracts (saved bytes == bytes before the patch; drop restores exactly them, frees exactly its mapping) on the real installer/drop for all arena contents and placements, "
-      "one whole real lifetime (post-state == pre-state); the restoration ORDER of the real drop glue is discharged per history length K (bounded stand-in, K<=4 quick / <=7 thorough, core replaced by a tagging recorder) and lifted to all finite histories by the Verus induction lemma.",
-      "Trusted: Vec::push/pop order and rustc's drop order of fields; the order obligation is bounded in K and labelled so; two real installations in one Kani harness exceed CBMC's capacity (65 GB), so histories are composed modularly.",
+      "one whole real lifetime (post-state == pre-state); the restoration ORDER is proved UNBOUNDED by Verus on the text of `impl Drop for InjectorPP` (any vector length: every guard dropped exactly once, newest first) and, per history length K (K<=4 quick / <=7 thorough, core replaced by a tagging recorder) and per installation flavour, by Kani on the compiled drop glue; byte-exact restoration for all finite histories then follows by the Verus induction lemma over the per-guard contracts.",
+      "Trusted: vstd's specification of Vec::pop, rustc's drop order of fields (guards before the lock: checked by the Kani lock monitor); the Kani order obligations are bounded in K and labelled so; two real installations in one Kani harness exceed CBMC's capacity (65 GB), so histories are composed modularly.",
       trusted_base=[TB_KANI, TB_SHIM, TB_HOOK, TB_X86])
 claim("C04",
       "Proof (sequential) of lock containment on the real code: a live InjectorPP / Preventer holds LOCK_FUNCTION from construction to drop; every OS-visible step of installing and restoring happens while it is held; it is released afterwards and can be retaken. "
@@ -516,3 +516,7 @@ H("c15_entry_macos", module="verif_arm64.rs", variant="macos", props=["C15", "C1
 H("c05_no_guard_before_writable", module="verif_amd64.rs", props=["C05", "C12"], fns=[(AMD, "patch_and_guard"), (COM, "new"), (COM, "drop")], expects_panic=True, covers=[], covers_unreachable=["COVER:installed-despite-mprotect-failure"])
 for _h in ("lifecycle_near", "lifecycle_bool", "lifecycle_far"):
     HARNESSES[_h]["props"] = sorted(set(HARNESSES[_h]["props"]) | {"C11"})
+
+import verus_drop  # noqa: E402
+VERUS["drop_order_unbounded"] = dict(props=["C02", "C12"], builder=verus_drop.build, fns=[(INJ, "drop")], expect_verified=2,
+                                     shared={"C02.order.all-dropped": ["C12"], "C02.order.reverse.unbounded": ["C12"]})
